@@ -1088,8 +1088,33 @@ func c13r3(c *Ctx) {
 			}
 		}
 		mrs := mapRangesIn(collect)
+		// The appends that decide which phases are kept are the ones inside the map range. An append
+		// behind it that only copies the collected entries one by one into the result (a full index
+		// range over the collected slice whose every iteration appends an element of that slice at
+		// the loop index) is the append-built spelling of `result[i] = entries[i].Phase`: it drops
+		// and duplicates nothing. Any other extra append stays undecided.
+		copyWhy := ""
+		if len(mrs) == 1 {
+			var inRange []*ssa.Call
+			for _, ap := range appends {
+				if mrs[0].Body[ap.Block()] {
+					inRange = append(inRange, ap)
+					continue
+				}
+				if why := c13IsFullCopyAppend(p, collect, ap, mrs[0]); why != "" && copyWhy == "" {
+					copyWhy = "append at " + p.IPos(ap) + " outside the map range is not a one-to-one copy of the collected entries: " + why
+				}
+			}
+			if copyWhy == "" {
+				appends = inRange
+			}
+		}
 		if len(mrs) != 1 || len(appends) != 1 {
-			o.Unknown("expected one map range and one append in Collect (found %d, %d)", len(mrs), len(appends))
+			if copyWhy != "" {
+				o.Unknown("expected one map range and one append in Collect (found %d, %d; %s)", len(mrs), len(appends), copyWhy)
+			} else {
+				o.Unknown("expected one map range and one append in Collect (found %d, %d)", len(mrs), len(appends))
+			}
 		} else {
 			mr := mrs[0]
 			ap := appends[0]
@@ -1316,9 +1341,176 @@ func c13EveryIterationPasses(l *Loop, entry *ssa.BasicBlock, must ssa.Instructio
 	return walk(entry)
 }
 
-// c13FullIndexLoop: loop l is `for i := range s` over the whole slice parameter s:
-// header tests i < len(s) with i = phi(-1|0, i+1). Returns "" when recognised.
-func c13FullIndexLoop(p *Program, l *Loop, s *ssa.Parameter) string {
+// c13IsFullCopyAppend: ap (an append of Collect outside the map range mr) copies the slice collected
+// by the map range element by element: its innermost loop is a full index range over a slice S that
+// is fed by the appends of the map range, every iteration executes ap, ap appends exactly one value,
+// that value is S[i] (or a field of it) at the loop index, and ap extends its own accumulator.
+// Returns "" when recognised, otherwise the reason.
+func c13IsFullCopyAppend(p *Program, fn *ssa.Function, ap *ssa.Call, mr *mapRange) string {
+	l := innermostLoop(fn, ap.Block())
+	if l == nil {
+		return "it is not in a loop"
+	}
+	if l.Head == mr.Head || mr.Body[l.Head] {
+		return "its loop is not behind the map range"
+	}
+	iff, ok := l.Head.Instrs[len(l.Head.Instrs)-1].(*ssa.If)
+	if !ok {
+		return "loop header has no condition"
+	}
+	bo, ok := iff.Cond.(*ssa.BinOp)
+	if !ok || bo.Op != token.LSS {
+		return "loop condition is not i < len(entries)"
+	}
+	lc, ok := bo.Y.(*ssa.Call)
+	if !ok {
+		return "loop bound is not len(entries)"
+	}
+	if b, isB := lc.Call.Value.(*ssa.Builtin); !isB || b.Name() != "len" || len(lc.Call.Args) != 1 {
+		return "loop bound is not len(entries)"
+	}
+	src := lc.Call.Args[0]
+	if why := c13FullIndexLoop(p, l, src); why != "" {
+		return why
+	}
+	// the ranged slice is the one the map range collects into
+	collected := false
+	var seen = map[ssa.Value]bool{}
+	var fed func(v ssa.Value) bool
+	fed = func(v ssa.Value) bool {
+		if seen[v] {
+			return false
+		}
+		seen[v] = true
+		switch x := v.(type) {
+		case *ssa.Phi:
+			for _, e := range x.Edges {
+				if fed(e) {
+					return true
+				}
+			}
+		case *ssa.Call:
+			if b, isB := x.Call.Value.(*ssa.Builtin); isB && b.Name() == "append" && mr.Body[x.Block()] {
+				return true
+			}
+		case *ssa.UnOp:
+			// the slice lives in a variable (captured by the sort closure): any value stored into it
+			if al, isAl := x.X.(*ssa.Alloc); isAl && x.Op == token.MUL {
+				for _, ref := range referrersOf(al) {
+					if st, isSt := ref.(*ssa.Store); isSt && st.Addr == ssa.Value(al) && fed(st.Val) {
+						return true
+					}
+				}
+			}
+		}
+		return false
+	}
+	// two reads of the collected slice: the same SSA value, or two loads of the same variable that
+	// is not assigned inside the copy loop
+	sameSlice := func(a, b ssa.Value) bool {
+		if a == b {
+			return true
+		}
+		la, okA := a.(*ssa.UnOp)
+		lb, okB := b.(*ssa.UnOp)
+		if !okA || !okB || la.Op != token.MUL || lb.Op != token.MUL || la.X != lb.X {
+			return false
+		}
+		al, isAl := la.X.(*ssa.Alloc)
+		if !isAl {
+			return false
+		}
+		for _, ref := range referrersOf(al) {
+			if st, isSt := ref.(*ssa.Store); isSt && st.Addr == ssa.Value(al) && l.Body[st.Block()] {
+				return false
+			}
+		}
+		return true
+	}
+	collected = fed(src)
+	if !collected {
+		return "the ranged slice is not the one filled inside the map range"
+	}
+	entry := c13BodyEntry(l)
+	if entry == nil {
+		return "loop body entry not found"
+	}
+	if !c13EveryIterationPasses(l, entry, ap) {
+		return "an iteration can come back to the loop header without appending"
+	}
+	// the accumulator: append(acc, …) with acc = phi at the loop header fed by this append
+	acc, isPhi := ap.Call.Args[0].(*ssa.Phi)
+	if !isPhi || acc.Block() != l.Head {
+		return "it does not extend the slice built by the same loop"
+	}
+	self := false
+	for _, e := range acc.Edges {
+		self = self || e == ssa.Value(ap)
+	}
+	if !self {
+		return "it does not extend the slice built by the same loop"
+	}
+	if len(ap.Call.Args) != 2 {
+		return "unexpected append form"
+	}
+	elems, okE := sliceElems(ap.Call.Args[1])
+	if !okE || len(elems) != 1 {
+		return "it does not append exactly one element per iteration"
+	}
+	// the element: S[i] or a field path of it, i the loop index
+	isIdx := func(v ssa.Value) bool {
+		switch x := v.(type) {
+		case *ssa.Phi:
+			return x.Block() == l.Head && c13IsLoopIndexPhi(x)
+		case *ssa.BinOp:
+			if ph, isP := x.X.(*ssa.Phi); isP && x.Op == token.ADD && ph.Block() == l.Head && c13IsLoopIndexPhi(ph) {
+				one, isC := constInt(x.Y)
+				return isC && one == 1
+			}
+		}
+		return false
+	}
+	v := stripConv(elems[0])
+	for i := 0; i < 8; i++ {
+		switch x := v.(type) {
+		case *ssa.UnOp:
+			if x.Op != token.MUL {
+				return "the appended element is not read from the collected slice"
+			}
+			v = x.X
+		case *ssa.Alloc:
+			// range-by-value copy `e := S[i]`: the single store into the local
+			var st *ssa.Store
+			n := 0
+			for _, ref := range referrersOf(x) {
+				if s, isS := ref.(*ssa.Store); isS && s.Addr == ssa.Value(x) {
+					st = s
+					n++
+				}
+			}
+			if n != 1 || !l.Body[st.Block()] {
+				return "the appended element is not read from the collected slice"
+			}
+			v = stripConv(st.Val)
+		case *ssa.FieldAddr:
+			v = x.X
+		case *ssa.Field:
+			v = x.X
+		case *ssa.IndexAddr:
+			if sameSlice(x.X, src) && isIdx(x.Index) {
+				return ""
+			}
+			return "the appended element is not the collected slice's element at the loop index"
+		default:
+			return "the appended element is not read from the collected slice"
+		}
+	}
+	return "the appended element is not read from the collected slice"
+}
+
+// c13FullIndexLoop: loop l is `for i := range s` over the whole slice s (a parameter, or a local
+// slice value): header tests i < len(s) with i = phi(-1|0, i+1). Returns "" when recognised.
+func c13FullIndexLoop(p *Program, l *Loop, s ssa.Value) string {
 	iff, ok := l.Head.Instrs[len(l.Head.Instrs)-1].(*ssa.If)
 	if !ok {
 		return "loop header has no condition"
@@ -1331,7 +1523,7 @@ func c13FullIndexLoop(p *Program, l *Loop, s *ssa.Parameter) string {
 	if !ok {
 		return "loop bound is not len(objs)"
 	}
-	if b, isB := lc.Call.Value.(*ssa.Builtin); !isB || b.Name() != "len" || lc.Call.Args[0] != ssa.Value(s) {
+	if b, isB := lc.Call.Value.(*ssa.Builtin); !isB || b.Name() != "len" || lc.Call.Args[0] != s {
 		return "loop bound is not len of the objs parameter"
 	}
 	// index: either phi(0, i+1) tested directly or i+1 of phi(-1, ·) (go/ssa range lowering)
